@@ -1,8 +1,9 @@
 // replay / bounded stand-in driver (appended to acts/src/scheduler/tests/step/timeout.rs of a scratch copy): property C19.
-// 4 histories on the real engine (test tick = 0.9 s): (1) a rule must not fire for a task that reached a terminal state before the limit;
+// 5 histories on the real engine (test tick = 0.9 s): (1) a rule must not fire for a task that reached a terminal state before the limit;
 // (2) a 1s rule of an open act fires exactly once, not before 1 s, within the limit plus two ticks, and the act stays open;
 // (3) two tasks with rules, one of them unparsable ("2w"): the well-formed rule of the other task still fires once;
-// (4) two rules on ONE task, the first unparsable: the well-formed second rule still fires once.
+// (4) two rules on ONE task, the first unparsable: the well-formed second rule still fires once;
+// (5) a step that is run again (Back) is a new task instance with its own timer: the rule fires once for each instance, never early.
 #[tokio::test]
 async fn verif_replay_hist_timeout() {
     let mut bad: Vec<String> = Vec::new();
@@ -63,6 +64,49 @@ async fn verif_replay_hist_timeout() {
         }
         if log.iter().any(|l| l == "never") { bad.push(format!("REPLAY-FAIL {what}: the unparsable rule fired")); }
         if act != Some(crate::TaskState::Interrupt) { bad.push(format!("REPLAY-FAIL {what}: the timed act is {act:?}, firing must not close it")); }
+    }
+    // ---- history 5: "at most once PER TASK INSTANCE": the rule of step1 fires for the first run; the client sends act1 back to step1, which runs
+    // again as a new task instance and stays open: its rule fires too -- once, and not before that instance was open for the limit
+    {
+        use std::sync::{Arc, Mutex};
+        let mut workflow = Workflow::new().with_step(|step| {
+            step.with_id("step1")
+                .with_timeout(|t| t.with_on("1s").with_step(|step| step.with_id("step_t").with_act(Act::msg(|msg| msg.with_key("tmo")))))
+                .with_act(Act::irq(|act| act.with_key("act1")))
+        });
+        let (proc, scher, emitter, _tx, _rx) = create_proc_signal::<()>(&mut workflow, &utils::longid());
+        let act1 = Arc::new(Mutex::new(None::<(String, String)>));
+        let (a,) = (act1.clone(),);
+        emitter.on_message(move |e| { if e.is_key("act1") && e.is_state(crate::MessageState::Created) { *a.lock().unwrap() = Some((e.pid.clone(), e.tid.clone())); } });
+        scher.launch(&proc);
+        let what = "1s rule on a step that is run again (Back)";
+        let fired_for = |step: &Arc<crate::scheduler::Task>| proc.task_by_nid("step_t").iter().filter(|t| t.prev() == Some(step.id.clone())).cloned().collect::<Vec<_>>();
+        let mut waited = 0;
+        while waited < 4000 && proc.task_by_nid("step_t").is_empty() { tokio::time::sleep(std::time::Duration::from_millis(50)).await; waited += 50; }
+        if proc.task_by_nid("step_t").is_empty() { bad.push(format!("REPLAY-FAIL {what}: the rule of the first run did not fire within 4 s")); }
+        else {
+            tokio::time::sleep(std::time::Duration::from_millis(100)).await;
+            let (pid, tid) = act1.lock().unwrap().clone().unwrap();
+            let mut options = crate::Vars::new(); options.insert("to".to_string(), serde_json::json!("step1"));
+            let r = scher.do_action(&crate::event::Action::new(&pid, &tid, crate::event::EventAction::Back, &options));
+            let mut waited = 0;
+            while waited < 2000 && proc.task_by_nid("step1").len() < 2 { tokio::time::sleep(std::time::Duration::from_millis(50)).await; waited += 50; }
+            let mut steps = proc.task_by_nid("step1");
+            if r.is_err() || steps.len() != 2 { bad.push(format!("REPLAY-FAIL {what}: back to step1 -> {r:?}, {} instance(s) of step1", steps.len())); }
+            else {
+                // limit (1 s) + two ticks (0.9 s each) + slack, then two more ticks to see that it does not fire again
+                tokio::time::sleep(std::time::Duration::from_millis(1000 + 2 * 900 + 300 + 1800)).await;
+                steps.sort_by_key(|t| t.start_time());      // the instance that was sent back first, the new one last
+                for (n, step) in steps.iter().enumerate() {
+                    let started = fired_for(step);
+                    if n == 1 && !step.state().is_running() { bad.push(format!("REPLAY-FAIL {what}: the second instance of step1 is {}, firing must not close it", step.state())); }
+                    if started.len() != 1 { bad.push(format!("REPLAY-FAIL {what}: the rule started its steps {} time(s) for instance #{} of step1 ({}), which was open for more than the limit plus two ticks (expected exactly once)", started.len(), n + 1, step.id)); continue; }
+                    let ms = started[0].start_time() - step.start_time();
+                    if ms < 1000 { bad.push(format!("REPLAY-FAIL {what}: fired {ms} ms after instance #{} of step1 started, before the 1 s limit", n + 1)); }
+                    if ms > 1000 + 2 * 900 + 300 { bad.push(format!("REPLAY-FAIL {what}: fired {ms} ms after instance #{} of step1 started, later than the limit plus two ticks", n + 1)); }
+                }
+            }
+        }
     }
     for b in bad.iter() { println!("{b}"); }
     assert!(bad.is_empty());
